@@ -252,10 +252,14 @@ def c03_7(ctx: Ctx):
         # (function qual, variable): reason
     }
     for q, fi in sorted(ctx.repo.funcs.items()):
+        if q in ("utils.show_block_asm", "rewriting.RewritingContext._log_patch_error"):
+            continue  # diagnostic printers: their loops only feed logging calls, which the loader drops
         for n in walk_no_nested(fi.node):
             if not isinstance(n, (ast.For, ast.AsyncFor)):
                 continue
             tnames = [x.id for x in ast.walk(n.target) if isinstance(x, ast.Name)]
+            if all(isinstance(st, ast.Pass) for st in n.body):
+                continue  # the body only logged (logging calls are dropped by the loader)
             used = set()
             for st in n.body:
                 for x in ast.walk(st):
